@@ -433,6 +433,23 @@ def _only_ends_moved(a, b):
     return a == b
 
 
+def _changed_nodes(a, b, out):
+    """collect (kind, token, some child changed) for every rendered node whose end differs between a and b"""
+    if isinstance(a, list) and a and isinstance(a[0], str) and a[0] in ("T", "N", "E", "EOF") and len(a) >= 3 and isinstance(a[1], int):
+        kids_changed = False
+        if a[0] == "N" and len(a) > 4:
+            before = len(out)
+            for x, y in zip(a[4], b[4]):
+                _changed_nodes(x, y, out)
+            kids_changed = len(out) > before
+        if a[2] != b[2]:
+            out.append((a[0], a[3] if len(a) > 3 else "", kids_changed))
+        return
+    if isinstance(a, list) and isinstance(b, list):
+        for x, y in zip(a, b):
+            _changed_nodes(x, y, out)
+
+
 def matcher_rtrim_moves_end(case):
     """known finding D7: text.RightTrim moves the end position of the node(s) its operand returned IN PLACE
     (ast.SetReaderPos), so a memoised result that is also used untrimmed is changed after it was returned.
@@ -443,7 +460,33 @@ def matcher_rtrim_moves_end(case):
     m = (case.get("detail") or {}).get("mutation") or case.get("mutation")
     if not m:
         return False
-    return m.get("at_return") != m.get("now") and _only_ends_moved(m.get("at_return"), m.get("now"))
+    # the mutated result must be the very node object a RightTrim received from its operand: the operand itself or a node
+    # below it that hands its operand's node on unchanged (Memoize, names, Any / Choice / Optional alternatives, trims);
+    # a Seq builds a new node, so its children are NOT covered
+    through = {"memo", "named", "pass", "any", "choice", "opt", "ltrim", "rtrim", "suppress"}
+    reach = set()
+    todo = [k for n in G if n.get("k") == "rtrim" for k in n.get("kids", [])] + [i + 1 for i, n in enumerate(G) if n.get("k") == "rtrim"]
+    while todo:
+        x = todo.pop()
+        if x in reach:
+            continue
+        reach.add(x)
+        if G[x - 1].get("k") in through:
+            todo += G[x - 1].get("kids", [])
+    if m.get("at_return") == m.get("now") or not _only_ends_moved(m.get("at_return"), m.get("now")):
+        return False
+    # every node whose end moved must be a node that such an operand chain can have returned (a terminal of that chain with
+    # the same token, or a sequence of that chain); the rendering of an enclosing node changes with it, which is the same finding
+    changed = []
+    _changed_nodes(m.get("at_return"), m.get("now"), changed)
+    ok_terms = {chr(G[x - 1]["ch"]) for x in reach if G[x - 1].get("k") == "term"}
+    has_seq = any(G[x - 1].get("k") == "seq" for x in reach)
+    for (kind, tok, kids_changed) in changed:
+        if kind == "T" and tok not in ok_terms:
+            return False
+        if kind == "N" and not kids_changed and not has_seq:
+            return False
+    return bool(changed)
 
 
 core.MATCHERS["rtrim_moves_end"] = matcher_rtrim_moves_end
